@@ -75,6 +75,18 @@ type Fault struct {
 	Errno syscall.Errno
 }
 
+// PathFault makes calls of one op on one (cleaned) path fail, from the
+// After-th such call on.
+type PathFault struct {
+	Path  string
+	Op    int
+	Kind  int
+	Arg   int
+	Errno syscall.Errno
+	After int
+	seen  int
+}
+
 // IOCall is one entry of the I/O log.
 type IOCall struct {
 	Index int64
@@ -93,6 +105,8 @@ type kernel struct {
 
 	plan  []Fault
 	nplan int
+	pathFaults  []PathFault
+	npathFaults int
 	// random fault mode: at each eligible call Choose(KFault,1000) >= 1000-rate
 	rate     int
 	rateOps  [nOps]bool
@@ -268,6 +282,17 @@ func (kk *kernel) enter(op int, path string, n int) decision {
 			d.kind = kk.plan[i].Kind
 			d.arg = kk.plan[i].Arg
 			d.errno = kk.plan[i].Errno
+		}
+	}
+	for i := 0; i < kk.npathFaults; i++ {
+		pf := &kk.pathFaults[i]
+		if d.kind == FNone && pf.Op == op && pf.Path == path && (pf.After <= 0 || pf.seen >= pf.After) {
+			d.kind = pf.Kind
+			d.arg = pf.Arg
+			d.errno = pf.Errno
+		}
+		if pf.Op == op && pf.Path == path {
+			pf.seen++
 		}
 	}
 	if d.kind == FNone && kk.rate > 0 && kk.rateOps[op] {
